@@ -154,6 +154,9 @@ def gen(r, tier):
         n = r.choice([40, 64, 65, 100, 129]) if tier == "quick" else r.choice([257, 300, 512, 1025, 2000])
         cases.append([("append", [rnd_block(r) for _ in range(n // 2)]), ("reopen",),
                       ("append", [rnd_block(r) for _ in range(n - n // 2)])])
+    # one batch so long that more than 1638 consecutive tree nodes (65536 bytes of the tree store) are flushed at once
+    cases.append([("append", [rnd_block(r) for _ in range(3)]), ("append", [bytes([66 + i % 7]) * (i % 3) for i in range(900 if tier == "quick" else 2600)]),
+                  ("reopen",), ("append", [rnd_block(r)])])
     return cases
 
 
